@@ -330,13 +330,16 @@ def run(ck):
                     nets = state_networks(it, s)
                     items = it.concrete_items(r)
                     gc = [c for c in p.calls if c[0] == "NeuralStateBase.gradient"]
-                    ck.check(len(gc) == 1 and gc[0][5].get("samples").obj is S.obj, "C03.R3", inst + ":gradient of the same batch", psite, "gradient() is not called once on samples_batch")
+                    # (an override that restates the gradient instead of calling gradient() is not judged through the call)
+                    ck.check((len(gc) == 1 and gc[0][5].get("samples").obj is S.obj) if gc else None, "C03.R3", inst + ":gradient of the same batch", psite, "gradient() is not called once on samples_batch")
                     if gc:
                         b = gc[0][5].get("bases")
                         ck.check((isinstance(b, VTens) and b.term == T.sym("bases")) if wb else (isinstance(b, VConst) and b.value is None), "C03.R3", inst + ":bases forwarded", psite, "bases are not forwarded unchanged")
                     ok = items is not None and len(items) == len(nets)
                     ck.check(ok, "C03.R3", inst + ":one vector per network", psite, "result is not one vector per network")
-                    if ok:
+                    if ok and not gc:
+                        ck.undecided("C03.R3", inst + ":positive phase restated", psite, "the positive phase is not built from a call of gradient(): its value is the matter of the gradient rules applied to this routine, which is not done")
+                    elif ok:
                         for n, g in zip(nets, items):
                             want = T.sym("g_" + n) * T.inv(T.sym("Bs"))
                             d = lin_diff(g.term, want)
@@ -477,6 +480,23 @@ def run(ck):
                         t0 = items[0].term if isinstance(items[0], VTens) else None
                         at0 = t0.single_atom() if t0 is not None else None
                         eg = ec[-1][6]
+                        # ... and it is the SUM over the group's rows (the batch gradient is one sum over all rows, divided once by
+                        # their number): a group's contribution that carries the inverse of the group's own row count is its mean
+                        vz_ = ec[-1][5].get("v")
+                        rows_ = None
+                        if isinstance(vz_, VTens) and vz_.shape:
+                            from ..values import dim_size as _dsz
+
+                            rows_ = _dsz(vz_.shape[0])
+                        ra_ = rows_.single_atom() if rows_ is not None else None
+                        if ra_ is None and isinstance(vz_, VTens) and vz_.shape and str(vz_.shape[0]) == "?":
+                            ra_ = T.sym("dim?").single_atom()  # the group's row count is a size nobody named: `v.shape[0]` of it is this symbol
+                            rows_ = T.sym("dim?")
+                        if eg is not None and ra_ is not None and len(vz_.shape) == 2:
+                            averaged = bool(eg.terms) and all(dict(m_).get(ra_, 0) < 0 for m_ in eg.terms)
+                            ck.check(not averaged, "C03.R4", inst + ":all-Z group's energy gradient is summed over its rows [%s]" % _c(p), gsite,
+                                     "the reference-basis group contributes its energy gradient divided by the group's own number of rows (%r): a mean per group, where the other groups and the final normalisation need the sum over rows" % (rows_,),
+                                     key="C03.R4|%s|all-Z group averaged" % cls)
                         if at0 is not None and isinstance(at0, T.App) and at0.op == "accum" and eg is not None and at0.args[3] == eg:
                             ck.ok("C03.R4", inst + ":all-Z group's energy gradient accumulated [%s]" % _c(p), gsite)
                         elif t0 is not None and eg is not None and (t0 == eg or (at0 is not None and isinstance(at0, T.App) and at0.op == "loop" and at0.args[3] == eg)):
